@@ -14,9 +14,9 @@ def p_c12(facts, rep, tier):
         "a path to a hand-back point unless the moved-out value is put back from the call that consumed it."
     )
     n_fn, n_eff, n_guard = guardfx.run(facts, rep, "C12")
-    rep.floor("C12 guardfx functions", n_fn, 5)
-    rep.floor("C12 guardfx effect sites", n_eff, 20)
-    rep.floor("C12 guardfx guards", n_guard, 9)
+    rep.floor("C12 guardfx functions", n_fn, 3)
+    rep.floor("C12 guardfx effect sites", n_eff, 12)
+    rep.floor("C12 guardfx guards", n_guard, 5)
     import handback
 
     n_hf, n_hp = handback.h1(facts, rep)
@@ -45,8 +45,8 @@ def p_c11(facts, rep, tier):
     )
     n_fn, n_eff, n_guard = guardfx.run(facts, rep, "C11")
     rep.floor("C11 guardfx functions", n_fn, 2)
-    rep.floor("C11 guardfx effect sites", n_eff, 10)
-    rep.floor("C11 guardfx guards", n_guard, 5)
+    rep.floor("C11 guardfx effect sites", n_eff, 6)
+    rep.floor("C11 guardfx guards", n_guard, 3)
     import statusdom
 
     np1, np2 = statusdom.run(facts, rep)
@@ -74,13 +74,13 @@ def p_c09(facts, rep, tier):
     before = len(rep.violations)
     n3 = syncorder.o3(ctx, rep)
     syncorder.pending_truncate_consumers(ctx, rep)
-    rep.floor("C09 O3 post-meta events", n3, 8)
+    rep.floor("C09 O3 post-meta events", n3, 4)
     import logowner
 
     nm = logowner.run(facts, rep)
-    rep.floor("C09 M1 log-ownership obligations", nm, 10)
+    rep.floor("C09 M1 log-ownership obligations", nm, 6)
     rep.floor("C09 guardfx functions", n_fn, 2)
-    rep.floor("C09 guardfx guards", n_guard, 4)
+    rep.floor("C09 guardfx guards", n_guard, 2)
     rep.assume("path feasibility is ignored", "effect table as in rules/guardfx.py")
     rep.trust("rustc MIR (nightly, mir-opt-level=0)", "rules/guardfx.py tables")
 
@@ -113,12 +113,12 @@ def p_c14(facts, rep, tier):
     import syncorder
 
     n5 = syncorder.r5(sync_ctx(facts), rep)
-    rep.floor("R5 wait/join sites decided", n5, 8)
-    rep.floor("R1 fallible call sites", n1, 450)
-    rep.floor("R2 CompleteIo values", n2, 12)
-    rep.floor("R3 spawn sites", n3, 10)
-    rep.floor("R3 join sites", nj, 11)
-    rep.floor("R4 fallible calls at/after an effect", n4, 9)
+    rep.floor("R5 wait/join sites decided", n5, 4)
+    rep.floor("R1 fallible call sites", n1, 270)
+    rep.floor("R2 CompleteIo values", n2, 7)
+    rep.floor("R3 spawn sites", n3, 6)
+    rep.floor("R3 join sites", nj, 6)
+    rep.floor("R4 fallible calls at/after an effect", n4, 5)
     rep.floor("poisoned-refusal guard", n_guard, 1)
     rep.assume(
         "accepted consumption idioms: `?`, unwrap/expect, match/if-let on the discriminant, return, move into a call/aggregate/field (responsibility transfers)",
@@ -145,13 +145,13 @@ def p_c18(facts, rep, tier):
     import termination
 
     n_loops, n_iter, n_rec, n_it = termination.run(facts, rep)
-    rep.floor("T1 loops in reachable functions", n_loops, 12)
-    rep.floor("T1 iterator-driven loops (machine-checked)", n_iter, 9)
+    rep.floor("T1 loops in reachable functions", n_loops, 7)
+    rep.floor("T1 iterator-driven loops (machine-checked)", n_iter, 5)
     rep.floor("T2 recursion obligations", n_rec, 5)
-    rep.floor("T3 Iterator method calls inspected", n_it, 20)
+    rep.floor("T3 Iterator method calls inspected", n_it, 12)
     rep.floor("verifier entry points", len(panicfree.ENTRY), 11)
-    rep.floor("reachable functions", len(reach), 60)
-    rep.floor("panic sites", len(inv), 95)
+    rep.floor("reachable functions", len(reach), 36)
+    rep.floor("panic sites", len(inv), 57)
     rep.assume(
         "H: NodeHasher implementations are total and collision resistant (two reviewed sites rest on domain separation of node kinds)",
         "overflow assertions are live in shipped builds (the workspace sets debug-assertions = true in release)",
@@ -174,7 +174,7 @@ def p_c20(facts, rep, tier):
     )
     ctx = sync_ctx(facts)
     n = dirlock.run(facts, rep, ctx.events, ctx.model)
-    rep.floor("dirlock obligations", n, 30)
+    rep.floor("dirlock obligations", n, 18)
     rep.assume("flock(2) with LOCK_EX|LOCK_NB excludes other open file descriptions, across processes", "thread pools other than the io pool are not joined on drop (see DESIGN.md F7)")
     rep.trust("rustc MIR (nightly, mir-opt-level=0)", "rules/fileclass.py", "libc constant values LOCK_EX=2, LOCK_NB=4, LOCK_UN=8 (linux)")
 
@@ -194,9 +194,9 @@ def p_c08(facts, rep, tier):
     n1 = vguard.s1(facts, rep)
     n2 = vguard.s2(facts, rep)
     n3 = vguard.s3(facts, rep)
-    rep.floor("S1 obligations", n1, 8)
-    rep.floor("S2 obligations", n2, 14)
-    rep.floor("S3 error variants", n3, 16)
+    rep.floor("S1 obligations", n1, 4)
+    rep.floor("S2 obligations", n2, 8)
+    rep.floor("S3 error variants", n3, 9)
     if tier != "control":
         import witness
 
@@ -231,14 +231,14 @@ def p_c15(facts, rep, tier):
     n6 = lockgraph.l6(facts, rep, M)
     n7 = lockgraph.l7(facts, rep, M)
     nw = witness.run(rep, ["c15"]) if tier != "control" else 99
-    rep.floor("lock classes", len(rep.extra["lock_classes"]), 24)
-    rep.floor("acquisition sites", rep.extra["acquisition_sites"], 65)
-    rep.floor("held->acquired pairs", npairs, 60)
-    rep.floor("L2 mutator call sites", n2, 9)
+    rep.floor("lock classes", len(rep.extra["lock_classes"]), 14)
+    rep.floor("acquisition sites", rep.extra["acquisition_sites"], 39)
+    rep.floor("held->acquired pairs", npairs, 36)
+    rep.floor("L2 mutator call sites", n2, 5)
     rep.floor("L3 obligations", n3, 3)
-    rep.floor("L5 obligations", n5, 12)
+    rep.floor("L5 obligations", n5, 7)
     rep.floor("L6 obligations", n6, 1)
-    rep.floor("L7 obligations", n7, 5)
+    rep.floor("L7 obligations", n7, 3)
     rep.floor("C15 witness doctests", nw, 5)
     rep.assume(
         "a lock is identified by the field that stores it (fields initialised from one another are unified); locks in containers are one class",
@@ -263,8 +263,8 @@ def sync_ctx(facts):
 def _sync_common(rep, ctx):
     rep.extra["file_events"] = len(ctx.events)
     rep.extra["strands"] = {"spawn_sites": len(ctx.st.spawns), "join_sites": len(ctx.st.joins)}
-    rep.floor("file events classified", len(ctx.events), 55)
-    rep.floor("spawn sites", len(ctx.st.spawns), 10)
+    rep.floor("file events classified", len(ctx.events), 33)
+    rep.floor("spawn sites", len(ctx.st.spawns), 6)
     if ctx.unclassified:
         for (fn, prim, ln) in ctx.unclassified:
             rep.violation("fileclass", fn.split("::", 1)[1], "unclassified|%s" % prim, "a file primitive (%s) at %s acts on a descriptor whose file class cannot be derived (fail closed)" % (prim, ln), site=ln)
@@ -298,8 +298,8 @@ def p_c03(facts, rep, tier):
     n7 = syncorder.o7(ctx, rep)
     syncorder.o8(ctx, rep)
     syncorder.o12(ctx, rep)
-    rep.floor("O1 pre-meta write/resize events", n1, 8)
-    rep.floor("O3 post-meta events", n3, 8)
+    rep.floor("O1 pre-meta write/resize events", n1, 4)
+    rep.floor("O3 post-meta events", n3, 4)
     _sync_common(rep, ctx)
 
 
@@ -321,10 +321,10 @@ def p_c04(facts, rep, tier):
     n9 = syncorder.o9(ctx, rep)
     n10 = syncorder.o10(ctx, rep)
     n11 = syncorder.o11(ctx, rep)
-    rep.floor("O2 pre-meta writes", n2, 8)
+    rep.floor("O2 pre-meta writes", n2, 4)
     rep.floor("O5/O6 truncate_wal barriers examined", n56, 3)
-    rep.floor("O9 rollback append obligations", n9, 6)
-    rep.floor("O11 create obligations", n11, 8)
+    rep.floor("O9 rollback append obligations", n9, 3)
+    rep.floor("O11 create obligations", n11, 4)
     _sync_common(rep, ctx)
 
 
@@ -346,8 +346,8 @@ def p_c17(facts, rep, tier):
     n3 = syncorder.w3(ctx, rep)
     n4 = syncorder.w4(ctx, rep)
     n5 = syncorder.o3(ctx, rep)
-    rep.floor("W1 mutating primitive sites", n1, 35)
-    rep.floor("O3 post-meta events", n5, 8)
+    rep.floor("W1 mutating primitive sites", n1, 21)
+    rep.floor("O3 post-meta events", n5, 4)
     _sync_common(rep, ctx)
 
 
